@@ -9,7 +9,11 @@ from vfw.exactlp import LP, frac
 
 # "switch_after": the model is populated on the other solver interface and moved to the spec's interface at the end;
 # "switch_twice": populated on the spec's interface, moved to the other one and back (the public `model.solver` setter)
-BUILD_PATHS = ["bulk", "one_by_one", "mets_first", "mets_implicit_ids", "switch_after", "switch_twice"]
+# provenance paths: the same model after a life that must not matter - "copied" (Model.copy of the built model),
+# "pickled" (pickle round trip), "optimized_first" (one optimize() before it is handed over, so that the solver holds a
+# basis), "context_churn" (a `with model:` block with knock-outs, another objective and an optimisation that is left)
+BUILD_PATHS = ["bulk", "one_by_one", "mets_first", "mets_implicit_ids", "switch_after", "switch_twice",
+               "copied", "pickled", "optimized_first", "context_churn"]
 _OTHER = {"glpk": "glpk_exact", "glpk_exact": "glpk"}
 
 
@@ -105,6 +109,23 @@ def build_model(spec, path: str = "bulk", set_solver: bool = True):
     elif set_solver and path == "switch_twice":
         model.solver = _OTHER[want]
         model.solver = want
+    elif path == "copied":
+        model = model.copy()
+    elif path == "pickled":
+        import pickle
+
+        model = pickle.loads(pickle.dumps(model))
+    elif path == "optimized_first":
+        model.slim_optimize()
+    elif path == "context_churn":
+        with model:
+            for k, rx in enumerate(model.reactions):
+                if k % 2 == 0:
+                    rx.knock_out()
+            if len(model.reactions):
+                model.objective = model.reactions[-1]
+                model.objective_direction = "min"
+            model.slim_optimize()
     return model
 
 
